@@ -332,3 +332,31 @@ func TestTimersAndTickers(t *testing.T) {
 		t.Fatalf("ticker/AfterFunc: %v", keys(o))
 	}
 }
+
+func TestCondSignal(t *testing.T) {
+	o, _ := outcomes(t, 1<<20, func(rec func(string)) {
+		key, ck := new(int), new(int)
+		ready := false
+		fin := make(chan bool, 1)
+		Go("waiter", func() {
+			MuLock(key)
+			for !ready {
+				tk := CondEnqueue(ck)
+				MuUnlock(key)
+				CondWait(ck, tk)
+				MuLock(key)
+			}
+			MuUnlock(key)
+			Send(fin, true)
+		})
+		MuLock(key)
+		ready = true
+		MuUnlock(key)
+		CondWake(ck, false)
+		Recv(fin)
+		rec("woken")
+	})
+	if len(o) != 1 || !o["woken|"+EndAllDone] {
+		t.Fatalf("got %v", keys(o))
+	}
+}
